@@ -242,6 +242,9 @@ RULES = [
     ("C03-R8", "every outcome of a comparison is produced under the dispatch on the operator [shared with C03]", lambda ctx: __import__("extra2").comparison_is_operator_dependent(ctx)),
     ("C12-R5", "the comparison carries the operator written in the query [shared with C12]", lambda ctx: __import__("extra2").operator_is_the_lexed_one(ctx)),
     ("C04-R8", "content-derived operands (line_count, ..): the byte count of Read::read bounds the data examined [shared with C04]", lambda ctx: __import__("extra2").read_amount_used(ctx)),
+    ("X-LITVALUE", "a literal evaluates to the text written in the query (patterns, size literals, arguments) [shared]", lambda ctx: __import__("extra2").literal_is_its_text(ctx)),
+    ("C13-R2", "date literals: interval table of parse_datetime, captures of the extracted regex [shared with C13]", lambda ctx: __import__("c13").r2(ctx)),
+    ("C13-R3", "date regex groups and their use, output format, local-time conversion of time columns [shared with C13]", lambda ctx: __import__("c13").r3(ctx)),
 ]
 
 EXPLANATION = (
